@@ -2,7 +2,9 @@ package checks
 
 import (
 	"fmt"
+	"net/http"
 	"strings"
+	"time"
 
 	ap "verif/apmodel"
 )
@@ -59,7 +61,18 @@ func getHistories(res *Result, check string, maxLen int) int {
 			for k, i := range seq {
 				sc := alpha[i].sc
 				sc.Name = check + "/get-history/" + strings.Join(names, ">")
-				got := sig(sc.On(a, nil))
+				// the application's clock moves on by 600 ms per request, starting just before a
+				// second (and day) boundary: every response carries the Date of its own instant
+				a.Now = time.Date(2020, 12, 31, 23, 59, 59, 900_000_000, time.UTC).Add(time.Duration(k) * 600 * time.Millisecond)
+				o := sc.On(a, nil)
+				if o.Panic == nil && len(o.W.Statuses) > 0 && o.W.HeaderAtWH != nil {
+					if d, want := o.W.HeaderAtWH.Get("Date"), a.Now.UTC().Format(http.TimeFormat); d != want {
+						res.Violate("get-history|date-of-another-instant|"+alpha[i].name, fmt.Sprintf("requests %v, the clock moving on 600 ms per request: response %d carries Date %q, the clock said %q", names, k+1, d, want),
+							M{"check": check, "part": "get-history", "requests": names})
+						break
+					}
+				}
+				got := sig(o)
 				if got != solo[i] {
 					res.Violate(fmt.Sprintf("get-history|response-depends-on-earlier-requests|%s-after-%s", alpha[i].name, alpha[seq[max(k-1, 0)]].name),
 						fmt.Sprintf("requests %v on one application: request %d (%s) is answered %s; served alone it is answered %s", names, k+1, alpha[i].name, trunc(got, 300), trunc(solo[i], 300)),
